@@ -790,6 +790,10 @@ func (e *Engine) calleeOf(f *frame, c *ssa.CallCommon, args *[]Value) *FuncV {
 		if recv.t == nil {
 			e.x.goPanic(f.fn, nil, "nil interface method call "+c.Method.Name())
 		}
+		if rt, ok := recv.v.(*ReflType); ok {
+			name := c.Method.Name()
+			return &FuncV{intr: func(args []Value) Value { return e.reflTypeMethod(rt, name, args) }}
+		}
 		m := e.prog.LookupMethod(recv.t, c.Method.Pkg(), c.Method.Name())
 		if m == nil {
 			panic(unsupported("method not found " + c.Method.Name() + " on " + recv.t.String()))
@@ -801,6 +805,9 @@ func (e *Engine) calleeOf(f *frame, c *ssa.CallCommon, args *[]Value) *FuncV {
 }
 
 func (e *Engine) invoke(fv *FuncV, args []Value) Value {
+	if fv.intr != nil {
+		return fv.intr(args)
+	}
 	if fv.bi != nil {
 		panic(unsupported("builtin as value"))
 	}
@@ -1454,6 +1461,9 @@ func (e *Engine) valEq(x, y Value, t types.Type) *Term {
 			return b.ff
 		}
 		return e.valEq(a.v, c.v, a.t)
+	case *ReflType:
+		c, ok := y.(*ReflType)
+		return b.Bool(ok && types.Identical(a.typ, c.typ))
 	}
 	panic(unsupported(fmt.Sprintf("== on %T", x)))
 }
